@@ -497,8 +497,20 @@ def k_merge(run, case):
                   "some input poses are missing from the merge", key="merge:missing")
 
 
+def k_cli(run, case):
+    """
+    Selection options end to end: evo_ape with --t_start/--t_end (together with time offsets,
+    filters, down-sampling as drawn) - the poses that reach the metric must be exactly the
+    documented selection (C01's workload executor and reference pipeline; the pose-selection
+    clauses are the ones judged for this property).
+    """
+    from vmon.props import C01
+    rec = C01.k_cli(run, case)
+    run.hit("evo_ape runs with time cropping judged" if rec else "evo_ape run refused / ambiguous (not judged)")
+
+
 KINDS = {"downsample": k_downsample, "motion": k_motion, "crop": k_crop, "split": k_split,
-         "merge": k_merge}
+         "merge": k_merge, "cli": k_cli}
 
 
 def main(run):
@@ -509,7 +521,9 @@ def main(run):
     for kind in ("downsample", "motion", "crop", "split", "merge"):
         for i in run.mine(n if kind != "merge" else n // 3):
             KINDS[kind](run, run.case(kind, i))
-    run.need("downsample: count == min(N, count)", "downsample: evenly spaced by index",
+    for i in run.mine({"quick": 120, "thorough": 3000}[run.tier]):
+        k_cli(run, run.case("cli", i, fmt=["tum", "euroc"][i % 2], force_options=["crop"]))
+    run.need("evo_ape runs with time cropping judged", "downsample: count == min(N, count)", "downsample: evenly spaced by index",
              "downsample: last pose kept", "downsample: N<1 refused",
              "motion filter: kept => threshold reached",
              "motion filter: dropped => no threshold reached", "motion filter: exact-grid cases",
